@@ -46,6 +46,11 @@ Target(lab) ==
     [] lab \in {"cs1", "cs3", "cs4", "c7", "c8j"}                                                -> th
     [] OTHER                                                                                      -> 0
 
+\* a device write that raised is logged as "write-fault": same label, the other branch of the step
+OpOf(e)    == IF e.op = "write-fault" THEN "write" ELSE e.op
+FaultOK(e) == IF e.op = "write-fault" THEN e.proc # MainId /\ faulted'[e.proc] /\ ~faulted[e.proc]
+              ELSE faulted' = faulted
+
 Stable == \A q \in ProcSet : pc[q] \notin Invisible
 
 Proj == [go |-> go, halting |-> halting, finished |-> finished, nthreads |-> Len(threads),
@@ -71,8 +76,9 @@ Consume ==
   /\ (l > 1 => LET f == ProjFailing(Traces[tid].events[l - 1].after) IN
                  IF f = <<>> THEN TRUE ELSE PrintT(<<"REJECT", tid, l - 1, "state-" \o f[1][1]>>) /\ FALSE)
   /\ LET e == Ev IN
-       /\ Kind(pc[e.proc]) = e.op
+       /\ Kind(pc[e.proc]) = OpOf(e)
        /\ StepOf(e.proc)
+       /\ FaultOK(e)
        /\ (e.proc = MainId /\ e.obj > 0) => Target(pc[MainId]) = e.obj
   /\ l' = l + 1 /\ UNCHANGED tid
 
@@ -91,8 +97,9 @@ ProjP == [go |-> go', halting |-> halting', finished |-> finished', nthreads |->
 ConsumeF ==
   /\ l <= Len(Traces[tid].events)
   /\ LET e == Ev IN
-       /\ Kind(pc[e.proc]) = e.op
+       /\ Kind(pc[e.proc]) = OpOf(e)
        /\ StepOf(e.proc)
+       /\ FaultOK(e)
        /\ (e.proc = MainId /\ e.obj > 0) => Target(pc[MainId]) = e.obj
        /\ IF ProjP = e.after THEN TRUE ELSE PrintT(<<"REJECT", tid, l, "state">>) /\ FALSE
   /\ l' = l + 1 /\ UNCHANGED tid
